@@ -1,6 +1,7 @@
 #!/bin/sh
-# mutstore.sh <id> [name]: copies the seeded change left by a mutant agent in /tmp/mut_<id> into /verif/seeded/<name>/
-id=$1; name=${2:-$1}; wt=/tmp/mut_$id; d=/verif/seeded/$name
+# mutstore.sh <id> [name] [worktree]: copies the seeded change left by a mutant agent in the worktree
+# (default /tmp/mut_<id>) into /verif/seeded/<name>/ (default name = id)
+id=$1; name=${2:-$1}; wt=${3:-/tmp/mut_$id}; d=/verif/seeded/$name
 mkdir -p $d
 git -C $wt diff -- lib cmd include tests ':!MUTANT*' > $d/patch.diff
 for f in $wt/MUTANT_demo.* ; do [ -f "$f" ] && cp "$f" $d/$(basename $f | sed 's/MUTANT_demo/demonstration/'); done
